@@ -373,8 +373,8 @@ def judgeStep (s : JS) (models : List (Nat × Router)) (idx : Nat) (op : Op) (im
         let mask (f : String) := ((f.splitOn ";").zip kinds).map (fun ((x, k) : String × String) => if k == "e" || k == "ec" then "---" else x)
         s.bump (if mask a == mask b then "dump.hidden-state.equal-but-catch-all-leaves" else "dump.hidden-state.differs")
     | _, _ => s
-  let dumpOff := cls == "dump" && implCore == "dump-unavailable"
-  let s := if dumpOff then s.bump "dump.unavailable" else s
+  let dumpOff := (cls == "dump" && implCore == "dump-unavailable") || (cls == "parse" && (implCore == "no-hook" || implCore == "accepted-no-hook"))
+  let s := if dumpOff then s.bump (cls ++ ".unavailable") else s
   -- correspondence
   let s := if implCore != modelCore && !dumpOff then s.emit s!"D {idx} {cls}\t{implCore}\t{modelCore}" else s
   let s := match implR, modelR with
@@ -443,7 +443,10 @@ def judgeStep (s : JS) (models : List (Nat × Router)) (idx : Nat) (op : Op) (im
       let spec := specParse t
       let s := s.bump (if spec.isSome then "parse.accepted" else "parse.rejected")
       let s := { s with nontrivial := s.nontrivial.insert ((if spec.isSome then (if (spec.getD []).length > 1 then "groups|" else "accepted|") else "rejected|") ++ hex t) }
-      if implCore.startsWith "ok" then
+      if implCore == "accepted-no-hook" then
+        -- without the hook only acceptance is visible (through `insert` on a router that knows nothing)
+        if spec.isNone then s.emit s!"O {idx} C11 parser accepts a template the grammar rejects" else s.bump "parse.accepted-no-hook"
+      else if implCore.startsWith "ok" then
         let s := if spec.isNone then s.emit s!"O {idx} C11 parser accepts a template the grammar rejects" else s
         if spec.isSome && showSpecParsed spec != implCore then
           let rawsOf (l : String) := ((l.drop 3).toString.splitOn ";").map (fun e => (e.splitOn "|").headD "")
